@@ -25,7 +25,7 @@ RULE = (
     "split or merged. norm: case = configuration with grafting x shapes x history crossing start_preconditioning_step; non-trivial = >= 1 step >= start "
     "with a non-zero Shampoo direction. Distinct = canonical JSON."
 )
-BOUNDS = "orders 0-4, numel <= 300, warm-up <= 10 steps, float32/float64"
+BOUNDS = "orders 0-4, numel <= 300, warm-up <= 60 steps (warmup stream) / 1003-2060 steps with alternating gradient presence (warmup_long), float32/float64; norm stream: Shampoo and SOAP"
 TOLERANCES = (
     "warmup: ||w - w_torch||_F <= tau * (sum_s ||delta w_s||_F + u*||w||) with tau = 256*eps(dtype) for SGD/Adagrad/RMSprop and 64*eps(float32) for Adam/AdamW "
     "(the implementation's bias-correction scalars are float32). norm: relative 64*eps(dtype)*(1 + cancellation factor) on norms, 1 - cos <= the same"
